@@ -263,6 +263,9 @@ def run_shard(prop, tier, seed, shard, nshards, out):
         for k, v in gen.WARM_STATS.items():
             if v:
                 ctx.counters["trees_" + k] += v
+        for k, v in getattr(gen, "NESTED_STATS", {}).items():
+            if v:
+                ctx.counters[k] += v
     d = ctx.dump()
     d["status"] = status
     if cov is not None:
